@@ -139,6 +139,58 @@ def run_cosine_scale_case(ctx, d):
                    {"scale": s, "got": got[:2].tolist(), "unscaled_brute_force": want[:2].tolist()})
 
 
+def run_asym_case(ctx, d):
+    """d: {family:'asym', N, dim, n, k, bs, case_seed}: a user-supplied distance that is NOT symmetric
+    (quasi-metric): the search must rank by d(query, case), argument order as documented (x1 = inputs, x2 = cases)"""
+    import tensorflow as tf
+    from xplique.example_based import SimilarExamples
+    rng = np.random.default_rng(d["case_seed"])
+    N, dim, n, k, bs = d["N"], d["dim"], d["n"], d["k"], d["bs"]
+    X = rng.integers(-4, 5, size=(N, dim)).astype(np.float32)
+    Q = rng.integers(-4, 5, size=(n, dim)).astype(np.float32)
+
+    def quasi(x1, x2):                      # 2 * (how much x1 exceeds x2) + (how much x2 exceeds x1)
+        return tf.reduce_sum(2.0 * tf.nn.relu(x1 - x2) + tf.nn.relu(x2 - x1), axis=-1)
+    ctx.case(d, True)
+    ctx.count("asym_distance_cases")
+    ok, out = ctx.impl_call(d, lambda: SimilarExamples(X, k=k, batch_size=bs, distance=quasi, case_returns=["distances"])(Q))
+    if not ok:
+        return
+    diff = Q[:, None, :].astype(np.float64) - X[None, :, :]
+    dm = (2.0 * np.maximum(diff, 0) + np.maximum(-diff, 0)).sum(-1)
+    want = topk_sorted(dm, k)
+    got = as_np(out["distances"]).astype(np.float64)
+    ctx.check_prop("asymmetric-distance-query-to-case", got.shape == want.shape and bool(np.array_equal(got, want)), d,
+                   {"got": got[:2].tolist(), "brute_force_d(query,case)": want[:2].tolist()})
+
+
+def run_kchange_case(ctx, d):
+    """d: {family:'kchange', N, dim, n, ks, bs, case_seed}: `k` reassigned between explain calls on one object"""
+    from xplique.example_based import SimilarExamples
+    rng = np.random.default_rng(d["case_seed"])
+    N, dim, n, bs = d["N"], d["dim"], d["n"], d["bs"]
+    X = rng.integers(-4, 5, size=(N, dim)).astype(np.float32)
+    ctx.case(d, True)
+    ctx.count("k_reassigned_cases")
+    ok, obj = ctx.impl_call(d, lambda: SimilarExamples(X, k=d["ks"][0], batch_size=bs, distance="manhattan",
+                                                       case_returns=["distances"]), signature="construct")
+    if not ok:
+        return
+    for c, k in enumerate(d["ks"]):
+        Q = rng.integers(-4, 5, size=(n, dim)).astype(np.float32)
+
+        def call():
+            obj.k = int(k)
+            return obj(Q)
+        ok, out = ctx.impl_call(d, call, signature="call-after-k-change")
+        if not ok:
+            return
+        want = topk_sorted(l1(Q, X), k)
+        got = as_np(out["distances"]).astype(np.float64)
+        ctx.check_prop("k-reassigned-returns-k-nearest", got.shape == want.shape and bool(np.array_equal(got, want)), d,
+                       {"call": c, "k": k, "got_shape": list(got.shape), "got": got[:1].tolist(), "brute_force": want[:1].tolist()})
+
+
 def gen_extra_cases(rng, thorough, methods):
     cases = []
     reps = 6 if thorough else 1
@@ -149,6 +201,15 @@ def gen_extra_cases(rng, thorough, methods):
                           "k": int(rng.integers(1, 4)), "bs": int(rng.integers(2, N + 2)), "calls": 3,
                           "case_seed": int(rng.integers(1 << 31))})
     if "similar" in methods:
+        for _ in range(reps * 3):
+            N = int(rng.integers(5, 12))
+            cases.append({"family": "asym", "N": N, "dim": int(rng.integers(1, 4)), "n": int(rng.integers(1, 4)),
+                          "k": int(rng.integers(1, N + 1)), "bs": int(rng.integers(1, N + 2)), "case_seed": int(rng.integers(1 << 31))})
+        for _ in range(reps * 2):
+            N = int(rng.integers(6, 12))
+            cases.append({"family": "kchange", "N": N, "dim": int(rng.integers(1, 4)), "n": int(rng.integers(1, 4)),
+                          "ks": [int(v) for v in rng.integers(1, N + 1, size=3)], "bs": int(rng.integers(2, N + 2)),
+                          "case_seed": int(rng.integers(1 << 31))})
         for s in ([1e-7, 1e-9, 1e3, 1.0] if thorough else [1e-7, 1e-9]):
             for _ in range(reps):
                 N = int(rng.integers(5, 11))
@@ -159,7 +220,5 @@ def gen_extra_cases(rng, thorough, methods):
 
 
 def run_extra(ctx, d):
-    if d["family"] == "reuse":
-        run_reuse_case(ctx, d)
-    else:
-        run_cosine_scale_case(ctx, d)
+    {"reuse": run_reuse_case, "asym": run_asym_case, "kchange": run_kchange_case,
+     "cosine-scale": run_cosine_scale_case}[d["family"]](ctx, d)
